@@ -189,6 +189,11 @@ func init() {
 		return Value{Tuple: []Value{{T: v}, {T: er}}}
 	}
 	externEffects["strconv.Atoi"] = effNone
+	// (fs.FileMode).Perm(): the nine permission bits
+	externModels["(io/fs.FileMode).Perm"] = func(f *Frame, instr ssa.Instruction, c *ssa.CallCommon, args []Value, rt types.Type) Value {
+		return Value{T: f.e.define(f.name("perm"), app(bvSort(32), "bvand", args[0].T, bvConst(0x1ff, 32)))}
+	}
+	externEffects["(io/fs.FileMode).Perm"] = effNone
 	// strings.Split(s, sep) with a non-empty separator: a fresh slice of at least one string; the first part is a prefix
 	// of s; when there are at least two parts the separator follows the first part in s; with exactly two parts the
 	// second one is the rest of s after that separator. (Nothing is said about the parts in between.)
